@@ -8,6 +8,7 @@ CONSTANTS
   Rngs = {"rA", "rB"}
   NiceMs = {"10", "2"}
 INVARIANT C12_EndpointsMap
+INVARIANT C12_InvertAfterHistory
 INVARIANT C12_CopyIndependent
 INVARIANT SameShape
 CHECK_DEADLOCK TRUE
